@@ -58,6 +58,12 @@ def run(chk):
                     chk.bad('C01-R2', where, 'pool-predicate', '%s de-duplicates constants with `%s`: %s, so -0.0 after 0.0 reuses the pooled 0.0' % (where, T.show(clo['b']), why),
                             CODEGEN, c['l'])
     chk.floor('constant pool look-ups', sites, 2)
+    # ---- R3: results of binary operators are wrapped in the constructor of their static (declared) class by the generator
+    from sa.props import c26
+    chk.rule('C01-R3', 'the class in which the generated code wraps an arithmetic result (the declared operator Output) can hold every Python result of that operator for operands '
+                       'of the declared classes: Output = Nat only if the result is never negative (sign abstraction; shared with C02/C26)')
+    n3 = c26.sign_rules(chk, fx, 'C01-R3')
+    chk.floor('declared numeric operator rows', n3, 20)
     return ('Integer-cast audit (typed HIR: source and target types of every `as`) over the marshalling writers, and a structural rule on the constant-pool predicate. '
             'Decides the clause "for every literal value, including naturals >= 2**31 and signed zeros"; operator/loop/function semantics of emitted code are run-time facts and are not decided.'), {}
 
